@@ -27,6 +27,25 @@ C = {
  "C07": ("exploration", "bounded-exhaustive enumeration against a hand-written byte-level grammar recogniser",
    "Every string of length <=5 (quick) / <=6 (thorough) over a 13-symbol alphabet incl. non-ASCII and NUL, every byte at every position of skeleton names, seeded longer names; acceptance, parts, recomposition, failure contract, per-part validators, compose/parse round trip.",
    "trusted: model_grammar.go", "3 C07"),
+ "C09": ("exploration", "round-trip monitor: WriteSpec then ReadSpec / Refresh+GetDevice over G-STR strings in every free-text field and numeric extremes, both encodings",
+   "One free-text field at a time takes hostile valid-UTF-8 strings (YAML-sensitive spellings, line breaks in every position, controls, NEL/LS/PS, BOM, non-characters, non-BMP) and integer fields take their extremes; the files written as x.json, x.yaml and x must read back equal and load to the same devices. The YAML block-scalar mismatch between yaml.v3 and yaml.v2 is a recorded known finding.",
+   "trusted: normalised JSON comparison identifies nil and empty containers", "3 C09"),
+ "C13": ("fault_enumeration", "fault enumeration over directory positions and files, scan.beforeRead hook for vanish/replace between listing and reading, uid-65534 child for permission faults; compared with M-RESOLVE",
+   "Every fault kind (10 file kinds, 5 directory kinds) at every configured-directory position and at up to 4 Spec files of good populations, alone or in pairs, manual and auto mode, followed by a repair and another refresh: the other devices resolve exactly, failing files are reported, Refresh() errs iff it must, entries disappear after the repair.",
+   "trusted: M-RESOLVE; a directory that cannot be scanned contributes nothing; unconstrained cases listed in DESIGN.md", "3 C13"),
+ "C16": ("exploration", "trace monitor over directory-tree snapshots (path, type, mode, size, SHA-256) before/after WriteSpec and RemoveSpec, manual and auto-refresh caches",
+   "Names from all four generators with hostile transient ids must be single path components; the snapshot diff after WriteSpec is exactly the expected file (+ created directories) in the last configured directory, encoding by extension, devices resolve to it with top priority after a refresh, RemoveSpec removes exactly that file and is idempotent.",
+   "trusted: SHA-256 snapshots of the sandbox tree; ids without NUL", "3 C16"),
+ "C17": ("exploration", "reference-model monitor: harness-written draft-07 evaluator over the shipped schema files vs every entry point x encoding x schema configuration",
+   "Valid Specs and 1-3 structural mutations (removed members, wrong types, bound-adjacent numbers, extra members, nulls, ill-formed annotation keys, unusual JSON spellings) through ValidateData/ValidateFile/ValidateReader/ReadAndValidate/ValidateType/Validate with builtin, external copy, none and nil schemas; verdict equality with the model, encoding independence, none/nil never reject, no-op canary.",
+   "trusted: model_schema.go implements draft-07; harness emitters; YAML numbers canonical", "3 C17"),
+ "C18": ("exploration", "implication monitor: library-valid Specs (decided by the library) must pass the builtin schema as object and as written files; global validator in child processes",
+   "G-SPEC Specs, boundary-valid Specs, numeric extremes (timeouts 0..2^32-1), G-STR strings and annotation keys of every shape; Validate(spec), ValidateFile/ValidateData of the written .json/.yaml, and WriteSpec+ReadSpec with SetSpecValidator(BuiltinSchema()) installed in dedicated children.",
+   "trusted: the library's own acceptance defines the antecedent", "3 C18"),
+ "C19": ("exploration", "differential monitor: the built cdi and validate binaries as child processes vs an in-process cache with the same options and validator; outputs parsed, not string-compared",
+   "Seeded populations (with/without files in error, missing directories) via --spec-dirs/-d in three flag forms; devices/vendors/classes/specs/dirs/validate/inject subcommands and formats; validate binary on mutated documents with builtin/none/external schema via file and stdin; listings, error-report file sets, exit statuses and injected OCI trees compared.",
+   "trusted: regexp extraction of names/paths from the tool's output; inject reference uses sorted matches", "3 C19"),
+
  "C14": ("exploration", "invariant monitor: before/after JSON images of the cache through the query API across injection sequences with host-node changes",
    "Sequences of InjectDevices/Device.ApplyEdits/Spec.ApplyEdits, each run twice, with mknod-replaced host nodes in between; cache image unchanged, results repeatable and equal to pristine edits applied now, cached Specs still writable and byte-identical.",
    "trusted: the image covers what the query API exposes; Apply on pristine generator data as reference", "3 C14"),
